@@ -327,8 +327,9 @@ def c_res(c):
 
 def C07_6(ctx, facts):
     s = facts.unit(facts.fn("server::CloseSender::send"))
-    takes = s.calls("std::option::Option::take", "core::option::Option::take")
-    ctx.check(len(takes) >= 1 and any(any(r.kind == "arg" and r.desc.endswith(".0") for r in s.roots(c.args[0])) for c in takes), "CloseSender::send|drops-receiver",
+    # the receiver is moved out of the sender's state (and dropped): `self.0.take()`, or `mem::replace(self, Sent)` on an enum state
+    takes = [c for c in s.calls() if c.matches(r"Option.*::take$|mem::(replace|take)$")]
+    ctx.check(len(takes) >= 1 and any(any(r.kind == "arg" and (r.desc.endswith(".0") or r.desc == "self" or r.desc.startswith("self.")) for r in s.roots(c.args[0])) for c in takes), "CloseSender::send|drops-receiver",
               "send() takes (drops) the watch receiver", "send() does not drop the receiver", s.where())
     # the close future awaits Sender::closed
     f = facts.unit(facts.method("server::CloseReciever", "IntoFuture", "into_future"))
